@@ -99,6 +99,12 @@ Renamed(c, s, t) ==
   IF s = t \/ s \notin ItfVars(c) THEN c
   ELSE [inv |-> SetToSeq(RenameSet(Set(c.inv), s, t)), outv |-> SetToSeq(RenameSet(Set(c.outv), s, t)),
         a |-> RenameRows(c.a, s, t), g |-> RenameRows(c.g, s, t)]
+\* a list of mappings applied in order (rename_variables)
+RECURSIVE RenamedAll(_, _, _), ClashAll(_, _, _)
+RenamedAll(c, maps, i) == IF i > Len(maps) THEN c ELSE RenamedAll(Renamed(c, maps[i][1], maps[i][2]), maps, i + 1)
+ClashAll(c, maps, i) ==
+  IF i > Len(maps) THEN FALSE
+  ELSE RenameClash(c, maps[i][1], maps[i][2]) \/ ClashAll(Renamed(c, maps[i][1], maps[i][2]), maps, i + 1)
 \* semantic equality of two contracts: a <=> a' and (a/\g) <=> (a'/\g')
 EquivClauses(x, y) ==
      ClausesFor(x.a, <<>>, y.a) \o ClausesFor(y.a, <<>>, x.a)
